@@ -5,6 +5,7 @@ INVARIANT C17_Ceil
 INVARIANT C17_Round
 INVARIANT C17_Offset
 INVARIANT C17_Range
+INVARIANT C17_WeekRangeSpacing
 INVARIANT CalendarAgrees
 INVARIANT OffsetInputIsBoundary
 CHECK_DEADLOCK FALSE
